@@ -35,6 +35,7 @@ PopL(p, i)        == Do([op |-> "Pop", p |-> p, i |-> i])
 DelName(p, n)     == Do([op |-> "DelName", p |-> p, n |-> n])
 DelIdx(p, n, i)   == Do([op |-> "DelIdx", p |-> p, n |-> n, i |-> i])
 CopyFromL(p, n, q) == Do([op |-> "CopyFrom", p |-> p, n |-> n, q |-> q])
+AdoptL(p, q)      == Do([op |-> "Adopt", p |-> p, q |-> q])
 NewFreeL(n, v, l) == Do([op |-> "NewFree", n |-> n, v |-> v, l |-> l])
 ForgetL(c)        == Do([op |-> "Forget", c |-> c])
 
@@ -50,6 +51,7 @@ Next ==
   \/ \E p \in Parents, n \in Names : DelName(p, n)
   \/ \E p \in Parents, n \in Names, i \in 1..MaxKids : DelIdx(p, n, i)
   \/ \E p, q \in Parents, n \in Names : CopyFromL(p, n, q)
+  \/ \E p, q \in Parents : AdoptL(p, q)
   \/ \E n \in Names \cup {Foreign}, v \in Vals, l \in {0, 1} : NewFreeL(n, v, l)
   \/ \E c \in Obj : ForgetL(c)
 
@@ -64,7 +66,7 @@ C09OrderKept == [][last'[1].op # "SetObj" => \A p \in Parents : OrderKept(st, st
 C09Locality == [][\A p \in Parents :
                     (st'.kids[p] # st.kids[p]) =>
                        \/ ("p" \in DOMAIN last'[1] /\ last'[1].p = p)
-                       \/ last'[1].op \in {"AddObj", "Reparent", "Insert", "SetObj"}]_vars
+                       \/ last'[1].op \in {"AddObj", "Reparent", "Insert", "SetObj", "Adopt"}]_vars
 \* repetitions of a name are exactly the list filtered by name (by-name and positional views agree by construction)
 TypeOK == /\ \A p \in Parents : \A i \in 1..Len(st.kids[p]) : st.kids[p][i] \in Obj
           /\ st.held \subseteq Obj
